@@ -184,6 +184,10 @@ theorem C18_excluded : C18_excluded_statement := by
     unfold Qc
     rw [filterMap_filter_isSome]
 
+/-- Both calculators iterate over a Python `set`: the order of the batteries does not matter. -/
+theorem C18_order_irrelevant (bs bs' : List CBat) (h : bs.Perm bs') : socOf bs = socOf bs' ∧ capOf bs = capOf bs' :=
+  socOf_perm h
+
 /-- The cache glue: when the working set is updated, the cached metrics of every battery that stopped working are
 gone (so a battery that comes back does not count until it sends again), the others are untouched. -/
 theorem C18_evicted (ids : List String) (p : Pool) (new : List Nat) (b : Nat) :
